@@ -20,6 +20,51 @@ def split(f, sizes):
     return [np.array(f[offs[k]:offs[k + 1]], dtype=np.float64) for k in range(len(sizes))]
 
 
+def single_schedule(chk):
+    """One informationally complete POVM = a tomography with ONE schedule (no stacking of several data vectors).  The
+    caller's arrays are handed over as they are: a sequence equals each dataset alone, a dataset estimated twice gives the
+    same result, other sample counts change nothing, the residual is orthogonal to the model, and the data are untouched."""
+    from quara.objects.povm import Povm
+    from quara.protocol.qtomography.standard.standard_qst import StandardQst
+    from quara.protocol.qtomography.standard.linear_estimator import LinearEstimator
+    from harness import qobjs, spectral
+    c = qobjs.csys("qubit", 1)
+    I2 = np.eye(2)
+    paulis = [np.array([[0, 1], [1, 0]], dtype=complex), np.array([[0, -1j], [1j, 0]]), np.array([[1, 0], [0, -1]], dtype=complex)]
+    dirs = np.array([[1, 1, 1], [1, -1, -1], [-1, 1, -1], [-1, -1, 1]], dtype=float) / np.sqrt(3)
+    wts = np.array([0.35, 0.25, 0.25, 0.15])
+    # unequal weights: sum_k w_k n_k must vanish for the elements to sum to the identity
+    A_ = np.vstack([dirs.T, np.ones(4)])
+    wts = np.linalg.lstsq(A_, np.array([0, 0, 0, 1.0]), rcond=None)[0] * 0 + 0.25          # regular tetrahedron weights
+    els = [w_ * (I2 + sum(n_ * s_ for n_, s_ in zip(nv, paulis))) for w_, nv in zip(2 * wts, dirs)]
+    # make it irregular (still a POVM): mix with a second, rotated tetrahedron of different weight
+    els = [0.7 * e for e in els] + [0.3 * 0.5 * (I2 + sgn * paulis[2]) for sgn in (1, -1)]
+    povm = Povm(c, [spectral.vec_of("q", e) for e in els], is_physicality_required=False)
+    for para in (True, False):
+        tag = "single_schedule:%s" % ("para" if para else "nopara")
+        chk.count(1, (tag,))
+        try:
+            qt = StandardQst([povm], on_para_eq_constraint=para)
+            A, b = np.asarray(qt.calc_matA(), dtype=float), np.asarray(qt.calc_vecB(), dtype=float)
+            rs = np.random.RandomState(3)
+            fs = [np.abs(rs.rand(len(els))) for _ in range(3)]
+            fs = [f / f.sum() for f in fs]
+            keep = [f.copy() for f in fs]
+            want = [np.linalg.lstsq(A, f - b, rcond=None)[0] for f in keep]
+            est = LinearEstimator()
+            seq = est.calc_estimate_sequence(qt, [[(100, fs[0])], [(200, fs[1])], [(100, fs[0])], [(50, fs[2])]])
+            got = [np.asarray(v, dtype=float) for v in seq.estimated_var_sequence]
+            alone = [np.asarray(est.calc_estimate(qt, [(n_, fs[k])]).estimated_var, dtype=float) for n_, k in ((7, 0), (100, 1), (1000, 2))]
+            ok_seq = all(np.allclose(g, want[k], atol=1e-10) for g, k in zip(got, (0, 1, 0, 2)))
+            ok_alone = all(np.allclose(a_, want[k], atol=1e-10) for a_, k in zip(alone, (0, 1, 2)))
+            if not ok_seq or not ok_alone:
+                chk.violation(tag + ":estimate", "sequence / single estimates of a one-schedule tomography differ from the least-squares solutions of the data handed over (sequence ok: %s, alone ok: %s)" % (ok_seq, ok_alone), dict(para=para))
+            if any(not np.array_equal(f, k_) for f, k_ in zip(fs, keep)):
+                chk.violation(tag + ":data_modified", "the estimator changed the caller's data arrays", dict(para=para))
+        except Exception as e:
+            chk.violation(tag + ":exception", "%r" % e, dict(para=para))
+
+
 def run(chk):
     from quara.protocol.qtomography.standard.linear_estimator import LinearEstimator
     from quara.simulation.consistency_check import calc_mse_of_true_estimated
@@ -149,6 +194,7 @@ def run(chk):
             except Exception as e:
                 chk.violation("estimator_reuse:exception:%s" % tag, "%r" % e, dict(tomo=cfg["tomo"], clause="estimator_reuse"))
                 break
+    single_schedule(chk)
     chk.notes["configurations"] = len(cfgs)
     chk.notes["datasets"] = len(datas) + len(cfgs)
     chk.assumptions += [
